@@ -90,6 +90,11 @@ impl Chooser {
         pick as usize
     }
 
+    /// The choices this execution replays before it takes defaults.
+    pub fn prefix(&self) -> &[u32] {
+        &self.prefix
+    }
+
     /// True while choices are still being replayed from the prefix.
     pub fn replaying(&self) -> bool {
         self.trace.len() < self.prefix.len()
